@@ -153,6 +153,10 @@ std::istream& deserialize(std::istream& is, std::map< KeyT, ValueT >& rhs)
         ValueT value{};
         deserialize(is, key);
         deserialize(is, value);
+        if (!is) {
+            // nothing more can be extracted: do not loop `size` times on a failed stream
+            break;
+        }
         rhs[key] = value;
     }
 
